@@ -140,14 +140,79 @@ def run(ctx):
         lab = 'sopclass.%s' % fn
         ctx.add_exploration(lab, lambda p, fn=fn, lab=lab: scu(p, fn, lab), res, target=lab)
 
+    # ------------------------------------------------------------------ the one-call wrapper c_find
+    # ClientAE (sockets, provider thread) is replaced by a recording stub for the duration of the call: the
+    # wrapper must configure the C-FIND user service, open one association to the remote entity, look the
+    # service up for the requested root, call it with the query, re-yield every result once and unchanged (loop
+    # specification in contracts/storagefile_c.py) and leave the association normally (= release, C14).
+    def wrapper(p):
+        from . import nego
+        from ..values import ClassVal, SeqVal
+        label = 'pynetdicom2.c_find'
+        top = it.modules['pynetdicom2']
+        aem = it.modules['pynetdicom2.applicationentity']
+        log = []
+        results = SeqVal(p.fresh('results', it.types.sort_of('Seq[Tup[int,int]]')), 'Tup[int,int]')
+        obj = it.builtins['object']
+
+        def srv(it2, a, kw):
+            log.append(('service-called', tuple(a)))
+            return results
+        service = nego.Builtin('bound C-FIND service', srv)
+        asce_cls = ClassVal('AssociationStub', [obj], {
+            'get_scu': nego.method(lambda it2, a, kw: (log.append(('get_scu', a[1])), service)[1])}, 'harness')
+        asce = Obj(asce_cls)
+        cm_cls = ClassVal('RequestAssociationCM', [obj], {
+            '__enter__': nego.method(lambda it2, a, kw: (log.append(('enter',)), asce)[1]),
+            '__exit__': nego.method(lambda it2, a, kw: (log.append(('exit', a[1])), False)[1])}, 'harness')
+        ae_cls = ClassVal('ClientAEStub', [obj], {
+            '__init__': nego.method(lambda it2, a, kw: log.append(('ClientAE', a[1]))),
+            'add_scu': nego.method(lambda it2, a, kw: (log.append(('add_scu', a[1])), a[0])[1]),
+            'request_association': nego.method(lambda it2, a, kw: (log.append(('request_association', a[1])), Obj(cm_cls))[1]),
+        }, 'harness')
+        real = aem.attrs['ClientAE']
+        aem.attrs['ClientAE'] = ae_cls
+        remote, aet, query, root = Opaque('remote_ae'), Opaque('local_aet'), Opaque('query'), p.fresh('root', smt.Str)
+        count = [0]
+
+        def consumer(v):
+            count[0] += 1
+
+        def ob(name, goal):
+            if isinstance(goal, bool):
+                goal = z3.BoolVal(goal)
+            p.oblige('%s#%s' % (label, name), goal, kind='ensures', assume_after=False)
+        try:
+            gen = it.call(top.attrs['c_find'], [remote, aet, query, root], {})
+            it.run_generator(gen, consumer)
+        except Raised as r:
+            ob('noexc', False)
+            p.outcome = 'normal'
+            return
+        finally:
+            aem.attrs['ClientAE'] = real
+        kinds = [e[0] for e in log]
+        ob('configures-the-find-user-service', ('add_scu', sc.attrs['qr_find_scu']) in [e for e in log if e[0] == 'add_scu'][:1])
+        ob('one-association-to-the-remote-entity', kinds.count('request_association') == 1 and
+           [e for e in log if e[0] == 'request_association'][0][1] is remote and kinds.count('enter') == 1)
+        ob('local-ae-title', [e for e in log if e[0] == 'ClientAE'][:1] == [('ClientAE', aet)])
+        ob('service-looked-up-for-the-requested-root', [e for e in log if e[0] == 'get_scu'][:1] == [('get_scu', root)])
+        calls = [e for e in log if e[0] == 'service-called']
+        ob('query-handed-to-the-service-once', len(calls) == 1 and len(calls[0][1]) >= 1 and calls[0][1][0] is query)
+        exits = [e for e in log if e[0] == 'exit']
+        ob('association-left-normally-after-the-last-result', len(exits) == 1 and exits[0][1] is None and kinds[-1] == 'exit')
+        p.outcome = 'normal'
+    ctx.extra.setdefault('functions', []).append(verify.function_info(it, it.modules['pynetdicom2'].attrs['c_find']))
+    ctx.add_exploration('pynetdicom2.c_find', wrapper, res, target='pynetdicom2.c_find')
+
     from ..services import install_native_replayer
     install_native_replayer(ctx)
     ctx.assumptions += [
         'the application yields a finite sequence of (data set, status) pairs; data sets are opaque handles and '
         'dsutils.encode is a deterministic function of the handle',
         'C-FIND user: arbitrary C-FIND-RSP messages are received; pending = FF00 / FF01 (C18 proves the classification)',
-        'the c_find convenience wrapper (pynetdicom2/__init__.py) is not under contract here: it needs a live '
-        'association (only its one-line re-yield loop is involved)',
+        'the c_find convenience wrapper is verified with ClientAE replaced by a recording stub (no sockets): what the '
+        'association and the looked-up service do is request_association (C14), get_scu (C11) and qr_find_scu above',
         'send() hands the message to a lazy encoder (asceprovider.Association.send -> dimse_msg.encode generator): '
         'modelled by the ownership monitor of pyvc/services.py',
     ]
